@@ -140,6 +140,8 @@ class Sandbox:
         self.home = os.path.join(self.dir, "home")
         for d in (self.src, self.home):
             os.makedirs(d)
+        # empty directories next to the roots: an operation that cleans up empty parents must not reach them
+        os.makedirs(os.path.join(self.dir, "outside-empty", "deep"))
         self.bin = core.build_rocfl_bin()
         self.n = 0
 
